@@ -39,8 +39,8 @@ ListOf(ref) == lists[CHOOSE i \in 1..Len(lists) : lists[i].ref = ref]
 
 Adv(x) ==
     IF P \in GopherViews THEN (IF x.type = "1" THEN "menu" ELSE IF x.type = "7" THEN "any" ELSE "doc")
-    ELSE IF P \in {"H", "HS"} THEN (IF x.t.mark = "search" \/ x.mt = "" THEN "any"
-                                    ELSE IF x.mt \in {"gopher-menu", "gopher+-menu"} THEN "menu" ELSE "doc")
+    \* HTTP shows the kind as the icon of the entry's Gopher type (iconmapping: type 1 -> folder.gif)
+    ELSE IF P \in {"H", "HS"} THEN (IF x.t.mark = "search" THEN "any" ELSE IF x.icon = "folder.gif" THEN "menu" ELSE "doc")
     ELSE "any"
 
 \* the requests a client of P sends for entry x of the listing known as base (q typed for a search item)
